@@ -4,7 +4,7 @@ import itertools
 from .. import core, gen_mol as gm, symx
 from ..symx import SymStr, band, cat, sym_alnum, sym_char
 
-ORD = {'-': '1', '=': '2', '#': '3', '$': '4', '.': '0'}
+ORD = {'-': '1', '=': '2', '#': '3', '$': '4', '.': '0', ':': '1.5'}
 
 SKELETONS_Q = ['C', 'CO', 'CCC', 'C(C)C', 'C1CC1', 'CCl', 'BrCC', '[CH2]O[CH2]', 'C[O-]', '[NH3+]C',
                'C=C', 'CC(=O)O', 'C1CCC1C', '[#TC4][#OT1][#CD1]', '[#A]1[#B][#C]1', '[#A]([#B])[#C]',
@@ -14,7 +14,9 @@ SKELETONS_Q = ['C', 'CO', 'CCC', 'C(C)C', 'C1CC1', 'CCl', 'BrCC', '[CH2]O[CH2]',
                'Cn1cccc1', 'Sc1ccccc1', 'Cs1cccc1', 'CC(C)(CO)', 'C(C)(C)(C)', 'C=1CC1', 'C1CCC=1', 'C=1CCCC=1', 'CC(C)/C=C/F',
                '[#A]=1[#B][#C]1', '[#A]([#B])([#C])',
                # S before an aromatic n; two %nn ring ids directly after each other on one atom
-               'CSn1cccc1', 'C%10CCCC%10%11CCCC%11']
+               'CSn1cccc1', 'C%10CCCC%10%11CCCC%11',
+               # a bond symbol in front of a two-digit ring marker (opening / closing)
+               'C=%10CC%10', 'C%10CC=%10']
 SKELETONS_T = SKELETONS_Q + ['CC(C)(C)C', 'C1CC2CC12', 'OC(=O)c1ccccc1', 'C(C(C)C)C', 'ClC(Br)F', 'C#CC',
                              'C%11CC%12CC%11%12', '[#A]=[#B]', '[#A]1[#B]2[#C]1[#D]2', 'C(=O)([O-])C',
                              '[NH2+]=C(N)N', 'S(=O)(=O)(C)C', 'P(C)(C)C', 'C/C=C\\C', 'Cc1ccc(C)cc1',
@@ -181,8 +183,7 @@ class C13(core.Prop):
                    'a descriptor is inserted directly after an atom, after that atom\'s ring digits, after a closed branch of that atom, or leads the text; '
                    'a non-leading descriptor carries its order symbol in front, a leading one behind (docs: fragments.rst, Valency)',
                    'numeric annotation values have the spelling d.d; free values are 2 alnum characters']
-    OUTSIDE = ['descriptors written inside their own parentheses', 'raw strings longer than the bound or over a larger alphabet',
-               'the aromatic bond symbol ":" as descriptor order']
+    OUTSIDE = ['descriptors written inside their own parentheses', 'raw strings longer than the bound or over a larger alphabet']
     BOUNDS = {
         'quick': 'raw strings of length <= 4 over C [ ] $ ( ) = 1 against a spec-side reference reader; %d skeletons (<= 6 atoms: chains, branches, rings incl. %%nn, Cl/Br, bracket and coarse atoms, slashes) x every '
                  'single insertion point x 1-2 descriptors (label length 0-2, with/without order symbol) + annotation forms on bracket atoms' % len(SKELETONS_Q),
@@ -225,6 +226,12 @@ class C13(core.Prop):
             for form in ANN_FORMS:
                 out.append({'skel': sk, 'ins': [[['atom', 0], [[1, 's']]]], 'ann': {'0': form, '2': form}})
         out.append({'skel': 'CCO', 'ins': [], 'ann': {}})
+        # the aromatic bond symbol as a descriptor's order symbol (reported as order 1.5)
+        for sk in ('cc', 'c1ccccc1', 'Cn1cccc1', 'C(c)c') if tier == 'quick' else ('cc', 'c1ccccc1', 'Cn1cccc1', 'C(c)c', 'Cc1ccc(C)cc1', '[nH]1cccc1'):
+            for p in insertion_points(gm.tokenize(sk)):
+                out.append({'skel': sk, 'ins': [[list(p), [[1, 'a']]]], 'ann': {}})
+                out.append({'skel': sk, 'ins': [[list(p), [[1, 'a'], [0, 'n']]]], 'ann': {}})
+                out.append({'skel': sk, 'ins': [[list(p), [[0, 's'], [1, 'a']]]], 'ann': {}})
         # raw strings (no skeleton): every string of length <= L over RAW_ALPHABET, split by the first two characters
         L = 4 if tier == 'quick' else 6
         for n in range(1, L + 1):
@@ -255,7 +262,7 @@ class C13(core.Prop):
                 tag = "i%dd%d" % (ii, di)
                 kind = SymStr([sym_char(tag + 'k', allowed='$<>!')])
                 label = SymStr.mk([sym_alnum("%sl%d" % (tag, k)) for k in range(lab)])
-                osy = SymStr([sym_char(tag + 'o', allowed='-=#$.')]) if osym == 's' else None
+                osy = SymStr([sym_char(tag + 'o', allowed='-=#$.')]) if osym == 's' else (SymStr.lift(':') if osym == 'a' else None)
                 hs.append({'kind': kind, 'label': label, 'osym': osy})
             holes['desc'][str(ii)] = hs
         for a, form in shape['ann'].items():
@@ -378,7 +385,8 @@ class C13(core.Prop):
                         import z3
                         e = z3.IntVal(ord('?'))
                         for s, v in ORD.items():
-                            e = z3.If(ch == ord(s), ord(v), e)
+                            if len(v) == 1:      # (':' is only ever written concretely)
+                                e = z3.If(ch == ord(s), ord(v), e)
                         digit = SymStr([z3.simplify(e)])
                 exp.setdefault(atom, []).append(cat(h['kind'], h['label'], digit))
         cl.append(('descriptor_atoms', sorted(bonding.keys()) == sorted(exp.keys())))
@@ -462,3 +470,7 @@ class C13(core.Prop):
 
 
 PROP = C13()
+
+# shape families added after the first complete pass; appended to the bounds written into the evidence
+BOUNDS_ADDED = "; plus: a bond symbol in front of a %nn ring marker; the aromatic symbol ':' as a descriptor's order symbol (order 1.5) on aromatic skeletonsa bond symbol in front of a %nn ring marker; the aromatic symbol ':' as a descriptor's order symbol (order 1.5) on aromatic skeletons"
+PROP.BOUNDS = {k: v + BOUNDS_ADDED for k, v in PROP.BOUNDS.items()}
